@@ -44,6 +44,20 @@ def extract_skip_predicate(pm: PyModel, rule):
     for st in loop.body:
         if isinstance(st, ast.If) and any(isinstance(b, ast.Continue) for b in st.body):
             cond = st.test
+    helper_calls = [c for c in ast.walk(cond) if isinstance(c, ast.Call) and ast.unparse(c.func).startswith("self.")
+                    and ast.unparse(c.func) != "self._is_desired_transport"] if cond is not None else []
+    if cond is None or helper_calls:
+        # the predicate was moved into helpers / rewritten as a guard around the rest of the body: read it off the normal form, where
+        # single-expression helpers are inlined and `if c: continue; rest` is `if not c: rest`
+        from ..pymodel import nfunc
+        nf = nfunc(pm, pm.func("gapic.generator.generator.Generator._render_template"), keep={"_is_desired_transport", "_get_file"})
+        for n in ast.walk(nf):
+            if isinstance(n, ast.For) and "services" in ast.unparse(n.iter):
+                for st in n.body:
+                    if isinstance(st, ast.If) and any(isinstance(c, ast.Call) and ast.unparse(c.func) == "self._get_file" for c in ast.walk(st)) and not st.orelse:
+                        cond = ast.UnaryOp(op=ast.Not(), operand=st.test)
+                    elif isinstance(st, ast.If) and any(isinstance(b, ast.Continue) for b in st.body):
+                        cond = st.test
     rule.need(cond is not None, "`if <skip predicate>: continue` in the %service loop")
     return cond
 
